@@ -1,5 +1,6 @@
 // sim harness, part 2: the operations (included by sim_main.cpp only)
 #pragma once
+#include <set>
 
 #include "sim_world.h"
 
@@ -817,6 +818,20 @@ void op_create_logger(World& W)
       SLogger* again = SFrontend::create_or_get_logger(name, SFrontend::get_sink(W.sinks[L.sinks[0]].name));
       if (again != L.ptr) fail(W, "create_or_get_logger(" + name + ") returned a different object while the logger lives");
       if (SFrontend::get_logger(name) != L.ptr) fail(W, "get_logger(" + name + ") does not return the live logger");
+      // the other registry views: get_all_loggers() = exactly the loggers whose removal was not requested; get_valid_logger()
+      // is one of them (or nullptr when there is none)
+      {
+        std::set<SLogger*> model;
+        for (auto const& l : W.loggers) if (l.valid) model.insert(l.ptr);
+        std::vector<SLogger*> all = SFrontend::get_all_loggers();
+        std::set<SLogger*> got(all.begin(), all.end());
+        if (got != model || all.size() != got.size())
+          fail(W, "get_all_loggers() returns " + std::to_string(all.size()) + " loggers, the registry model has " + std::to_string(model.size()) +
+                    " valid ones (a removed logger is listed, a live one is missing, or one is listed twice)");
+        SLogger* v = SFrontend::get_valid_logger();
+        if (model.empty() ? v != nullptr : model.count(v) == 0) fail(W, "get_valid_logger() does not return one of the valid loggers");
+        W.r->label("registry_views_checked");
+      }
       return;
     }
   }
